@@ -1,6 +1,687 @@
-/- C07 - property theorems (stub: not built yet) -/
-import NotationModel.Model.C07
+/-
+C07 - What the library signs, it verifies - and it reports what was signed.
+Property theorems only; the model is in `Model/C07.lean`, the tables are the regenerated
+facts of `Generated/C07.lean`.
 
+Structure: (1) the facts are what the model relies on (`facts_*`, table lemmas per key spec and
+signer); (2) maps: `addUserMetadataToDescriptor` = legality check + merge, lookups of a merge;
+(3) the signing API in closed form (`signModel_eq`) for every crypto scheme; (4) the verifying
+API on what was signed (`runWith_eq`); (5) `model_holds` and the readable theorems.
+-/
+import NotationModel.Model.C07
+set_option linter.unusedSimpArgs false
 namespace NotationModel.C07
+open NotationModel.Facts
+
+/-! facts -/
+theorem facts_sanitize : c07SanitizeFields = ["Annotations", "Digest", "MediaType", "Size"] ∧
+    c07GenericSignSanitizes = true ∧ c07EnvelopePluginSanitizes = true := by decide
+
+theorem facts_guards : guardPresent "signOpts.ExpiryDuration<0" = true ∧
+    guardPresent "signOpts.ExpiryDuration%time.Second!=0" = true ∧
+    c07SignOCIFirstCall = "validateSignArguments" ∧ c07SignBlobFirstCall = "validateSignArguments" := by decide
+
+theorem facts_reserved : c07ReservedPrefixes = ["io.cncf.notary"] := by decide
+
+theorem facts_returns : c07VerifyBlobReturns = "payload.TargetArtifact" ∧
+    c07UserMetadataReturns = "payload.TargetArtifact.Annotations" := by decide
+
+def specAlg : KeySpec → String
+  | .rsa2048 => "PS256" | .rsa3072 => "PS384" | .rsa4096 => "PS512"
+  | .ec256 => "ES256" | .ec384 => "ES384" | .ec521 => "ES512"
+
+theorem signerKeySpec_eq (s : SignerKind) (k : KeySpec) : signerKeySpec s k = some k.core := by
+  cases s <;> cases k <;> decide
+
+theorem ociKeySpec_eq (s : SignerKind) (k : KeySpec) : ociKeySpec s k = some k.core := by
+  cases s <;> cases k <;> decide
+
+theorem headerAlg_eq (s : SignerKind) (k : KeySpec) : headerAlg s k k.core = some (specAlg k) := by
+  cases s <;> cases k <;> decide
+
+theorem primitiveHash_eq (s : SignerKind) (k : KeySpec) : primitiveHash s k k.core = some (specDigestAlg k) := by
+  cases s <;> cases k <;> decide
+
+theorem coreHash_specAlg (k : KeySpec) : coreHash (specAlg k) = some (specDigestAlg k) := by
+  cases k <;> decide
+
+theorem signerDigestAlg_eq (k : KeySpec) : signerDigestAlg k.core = some (specDigestAlg k) := by
+  cases k <;> decide
+
+theorem verifierDigestAlg_eq (k : KeySpec) : verifierDigestAlg (specAlg k) = some (specDigestAlg k) := by
+  cases k <;> decide
+
+theorem digestUnder_spec (b : Blob) (k : KeySpec) : b.digestUnder (specDigestAlg k) = some (b.specDigest k) := by
+  cases k <;> rfl
+
+theorem kvLookup_insert (k v k' : String) (m : List KV) :
+    kvLookup k' (kvInsert k v m) = if k = k' then some v else kvLookup k' m := by
+  induction m with
+  | nil => simp [kvInsert, kvLookup]
+  | cons x xs ih =>
+    simp only [kvInsert]
+    split
+    · simp [kvLookup]
+    · split
+      · rename_i h; subst h; simp only [kvLookup]; split <;> simp_all
+      · rename_i h1 h2
+        simp only [kvLookup, ih]
+        by_cases h3 : x.k = k'
+        · have : ¬ k = k' := by intro h; exact h2 (h ▸ h3)
+          simp [h3, this]
+        · simp [h3]
+
+theorem kvHas_insert (k v k' : String) (m : List KV) :
+    kvHas k' (kvInsert k v m) = (decide (k = k') || kvHas k' m) := by
+  unfold kvHas
+  rw [kvLookup_insert]
+  by_cases h : k = k' <;> simp [h]
+
+theorem reserved_eq (k : String) : reserved k = specReserved k := by
+  simp [reserved, specReserved, facts_reserved]
+
+theorem mergeKV_cons (a : List KV) (m : KV) (ms : List KV) :
+    mergeKV a (m :: ms) = mergeKV (kvInsert m.k m.v a) ms := rfl
+
+/-- the other entries stay clear of an inserted key iff they were clear before and differ from it -/
+theorem all_clear_insert (m : KV) (a ms : List KV) :
+    legalMetadata (kvInsert m.k m.v a) ms = (legalMetadata a ms && !ms.any (fun x => x.k == m.k)) := by
+  induction ms with
+  | nil => simp [legalMetadata]
+  | cons x xs ih =>
+    simp only [legalMetadata, ih, kvHas_insert, List.any_cons]
+    by_cases h : m.k = x.k
+    · simp [h]
+    · have h1 : (x.k == m.k) = false := by simp; exact fun e => h e.symm
+      have h2 : decide (m.k = x.k) = false := by simp [h]
+      rw [h1, h2]
+      generalize specReserved x.k = b1
+      generalize kvHas x.k a = b2
+      generalize (xs.any fun y => y.k == x.k) = b3
+      generalize legalMetadata a xs = b4
+      generalize (xs.any fun y => y.k == m.k) = b5
+      cases b1 <;> cases b2 <;> cases b3 <;> cases b4 <;> cases b5 <;> rfl
+
+/-- `addUserMetadataToDescriptor` succeeds exactly on legal metadata, and then yields the merge -/
+theorem addUserMetadata_eq (a ms : List KV) :
+    addUserMetadata a ms = if legalMetadata a ms then some (mergeKV a ms) else none := by
+  induction ms generalizing a with
+  | nil => simp [addUserMetadata, legalMetadata, mergeKV]
+  | cons m ms ih =>
+    simp only [addUserMetadata, legalMetadata, reserved_eq, mergeKV_cons, ih, all_clear_insert]
+    by_cases h1 : specReserved m.k = true <;> by_cases h2 : kvHas m.k a = true <;>
+      by_cases h3 : (ms.any fun x => x.k == m.k) = true <;> by_cases h4 : legalMetadata a ms = true <;> simp_all
+
+theorem kvLookup_none_of_not_any (k : String) (ms : List KV) (h : ms.any (fun x => x.k == k) = false) :
+    kvLookup k ms = none := by
+  induction ms with
+  | nil => rfl
+  | cons x xs ih =>
+    simp only [List.any_cons, Bool.or_eq_false_iff, beq_eq_false_iff_ne] at h
+    simp [kvLookup, h.1, ih h.2]
+
+/-- a legal merge is the union of the two maps, the metadata taking the keys it has -/
+theorem kvLookup_merge (k : String) (a ms : List KV) (h : legalMetadata a ms = true) :
+    kvLookup k (mergeKV a ms) = (kvLookup k ms).orElse (fun _ => kvLookup k a) := by
+  induction ms generalizing a with
+  | nil => simp [mergeKV, kvLookup]
+  | cons m ms ih =>
+    simp only [legalMetadata, Bool.and_eq_true, Bool.not_eq_true'] at h
+    obtain ⟨⟨⟨h1, h2⟩, h3⟩, h4⟩ := h
+    have hl : legalMetadata (kvInsert m.k m.v a) ms = true := by
+      rw [all_clear_insert]; simp [h4, h3]
+    rw [mergeKV_cons, ih _ hl, kvLookup_insert]
+    by_cases hk : m.k = k
+    · subst hk
+      simp [kvLookup, kvLookup_none_of_not_any _ _ h3]
+    · simp [kvLookup, hk]
+
+theorem kvSubset_refl (a : List KV) : kvSubset a a = true := by
+  simp [kvSubset]
+
+/-- everything that was signed as user metadata can be required at verification -/
+theorem kvSubset_merge (a ms : List KV) (h : legalMetadata a ms = true) :
+    kvSubset ms (mergeKV a ms) = true := by
+  simp only [kvSubset, List.all_eq_true, beq_iff_eq]
+  intro x hx
+  rw [kvLookup_merge _ _ _ h]
+  have : (kvLookup x.k ms).isSome := by
+    clear h
+    induction ms with
+    | nil => cases hx
+    | cons y ys ih =>
+      simp only [kvLookup]
+      split
+      · rfl
+      · rename_i hne
+        cases hx with
+        | head => exact absurd rfl hne
+        | tail _ h' => exact ih h'
+  cases hl : kvLookup x.k ms with
+  | none => simp [hl] at this
+  | some v => simp
+
+/-- a descriptor reduced to media type, digest, size and annotations -/
+def sanitised (d : FullDesc) : DescObs :=
+  { mediaType := d.mediaType, digest := d.digest, size := d.size, annotations := d.annotations, extraKeys := [] }
+
+theorem payloadOf_sanitised (d : FullDesc) :
+    payloadOf c07GenericSignSanitizes d = sanitised d ∧ payloadOf c07EnvelopePluginSanitizes d = sanitised d := by
+  have hk : keep "MediaType" = true ∧ keep "Digest" = true ∧ keep "Size" = true ∧ keep "Annotations" = true ∧
+      keep "ArtifactType" = false ∧ keep "Data" = false ∧ keep "Platform" = false ∧ keep "URLs" = false := by decide
+  obtain ⟨h1, h2, h3, h4, h5, h6, h7, h8⟩ := hk
+  simp [payloadOf, facts_sanitize.2.1, facts_sanitize.2.2, project, sanitised, h1, h2, h3, h4, h5, h6, h7, h8]
+
+/-- with a whole number of seconds the expiry is the (truncated) signing time plus the duration,
+whatever the sub-second part of the clock and whoever computes it -/
+theorem protectedAttrs_eq (alg : String) (p : DescObs) (ep : Bool) (d nowNs : Int) (hd : d % 1000000000 = 0) :
+    protectedAttrs alg p ep d nowNs =
+      { alg := alg, payloadType := payloadTypeV1, payload := p, signingTime := nowNs / 1000000000,
+        expiry := if d ≠ 0 then some (nowNs / 1000000000 + d / 1000000000) else none } := by
+  have h1 : (d / 1000000000) * 1000000000 = d := by omega
+  have h2 : (nowNs + d) / 1000000000 = nowNs / 1000000000 + d / 1000000000 := by omega
+  cases ep <;> simp [protectedAttrs, h1, h2]
+
+def envelopeOf (C : Crypto) (key : C.Key) (i : Input) (attrs : Protected) : Envelope C :=
+  { format := i.format, attrs := attrs, agent := i.agent, signer := C.pub key,
+    sig := C.sign key ⟨specDigestAlg i.keySpec, attrs⟩ }
+
+theorem integrity_envelopeOf (C : Crypto) (key : C.Key) (i : Input) (attrs : Protected)
+    (h : attrs.alg = specAlg i.keySpec) : (envelopeOf C key i attrs).integrity = true := by
+  simp [Envelope.integrity, envelopeOf, h, coreHash_specAlg, C.correct]
+
+theorem signDesc_eq (C : Crypto) (key : C.Key) (i : Input) (nowNs : Int) (d : FullDesc) :
+    signDesc C key i i.keySpec.core nowNs d =
+      some (envelopeOf C key i
+        (protectedAttrs (specAlg i.keySpec) (sanitised d) (i.signer == .pluginEnvelope) i.durationNs nowNs)) := by
+  unfold signDesc
+  simp only [headerAlg_eq, primitiveHash_eq]
+  have hp : payloadOf (if (i.signer == SignerKind.pluginEnvelope) = true then c07EnvelopePluginSanitizes
+      else c07GenericSignSanitizes) d = sanitised d := by
+    split
+    · exact (payloadOf_sanitised d).2
+    · exact (payloadOf_sanitised d).1
+  rw [hp]
+  have hi := integrity_envelopeOf C key i
+    (protectedAttrs (specAlg i.keySpec) (sanitised d) (i.signer == .pluginEnvelope) i.durationNs nowNs) (by simp [protectedAttrs])
+  simp only [envelopeOf] at hi
+  have h1 : (protectedAttrs (specAlg i.keySpec) (sanitised d) (i.signer == .pluginEnvelope) i.durationNs nowNs).payloadType
+      = payloadTypeV1 := rfl
+  have h2 : (protectedAttrs (specAlg i.keySpec) (sanitised d) (i.signer == .pluginEnvelope) i.durationNs nowNs).payload
+      = sanitised d := rfl
+  have h3 : payloadDescriptorValid d (sanitised d) = true := by
+    simp [payloadDescriptorValid, sanitised, kvSubset_refl]
+  simp [hi, envelopeOf, h1, h2, h3]
+
+
+theorem signArgsOk_eq (d : Int) : signArgsOk d = (decide (0 ≤ d) && decide (d % 1000000000 = 0)) := by
+  simp only [signArgsOk, facts_guards.1, facts_guards.2.1, Bool.true_and]
+  by_cases h0 : 0 ≤ d <;> by_cases h1 : d % 1000000000 = 0 <;> simp [h0, h1] <;> omega
+
+/-- the protected attributes of the envelope the signing API produces for legal arguments -/
+def expectedAttrs (i : Input) (nowNs : Int) : Protected :=
+  { alg := specAlg i.keySpec, payloadType := payloadTypeV1, payload := expectedPayload i,
+    signingTime := nowNs / 1000000000,
+    expiry := if i.durationNs ≠ 0 then some (nowNs / 1000000000 + i.durationNs / 1000000000) else none }
+
+/-- **the signing API, characterised**: it refuses exactly the illegal arguments, and for legal
+ones the envelope protects the sanitised descriptor with the metadata merged in, the truncated
+signing time and signing time + duration - for every key spec, format, signer and crypto scheme -/
+theorem signModel_eq (C : Crypto) (key : C.Key) (i : Input) (nowNs : Int) :
+    signModel C key i nowNs =
+      if legal i then some (envelopeOf C key i (expectedAttrs i nowNs)) else none := by
+  unfold signModel legal
+  rw [signArgsOk_eq]
+  by_cases h0 : 0 ≤ i.durationNs
+  · by_cases h1 : i.durationNs % 1000000000 = 0
+    · simp only [h0, h1, decide_true, Bool.and_self, Bool.not_true, Bool.false_eq_true, if_false, Bool.true_and]
+      cases hk : i.kind with
+      | oci =>
+        simp only [ociKeySpec_eq, addUserMetadata_eq]
+        by_cases hl : legalMetadata i.desc.annotations i.metadata = true
+        · simp only [hl, if_true, signDesc_eq, protectedAttrs_eq _ _ _ _ _ h1]
+          simp [expectedAttrs, expectedPayload, hk, sanitised]
+        · simp [hl]
+      | blob =>
+        by_cases hm : i.contentMediaType = ""
+        · simp [hm]
+        · by_cases hv : i.mediaTypeValid = true
+          · simp only [signerKeySpec_eq, signerDigestAlg_eq, digestUnder_spec, addUserMetadata_eq]
+            by_cases hl : legalMetadata [] i.metadata = true
+            · simp only [hl, if_true, signDesc_eq, protectedAttrs_eq _ _ _ _ _ h1]
+              simp [expectedAttrs, expectedPayload, hk, sanitised, blobDescriptor, hm, hv]
+            · simp [hl, hm, hv]
+          · simp [hm, hv]
+    · simp [h0, h1]
+  · simp [h0]
+
+
+/-! ### the verifying side on what the signing side produced -/
+
+theorem processSignature_envelopeOf (C : Crypto) (key : C.Key) (i : Input) (attrs : Protected)
+    (trust : C.Pub → Bool) (nowSec : Int) (halg : attrs.alg = specAlg i.keySpec)
+    (hpt : attrs.payloadType = payloadTypeV1) (ht : trust (C.pub key) = true) :
+    processSignature trust nowSec (envelopeOf C key i attrs) =
+      (match attrs.expiry with
+       | some x => decide (nowSec < x)
+       | none => true) := by
+  have hi := integrity_envelopeOf C key i attrs halg
+  simp only [processSignature, hi, Bool.true_and]
+  cases hx : attrs.expiry <;> simp [envelopeOf, hpt, ht, hx]
+
+theorem notExpired_eq (i : Input) (nowNs : Int) :
+    (match (expectedAttrs i nowNs).expiry with
+     | some x => decide ((expectedAttrs i nowNs).signingTime + (i.lagSec : Int) < x)
+     | none => true) = !expiredAtVerify i := by
+  simp only [expectedAttrs, expiredAtVerify]
+  by_cases hd : i.durationNs = 0
+  · simp [hd]
+  · simp only [hd, ne_eq, not_false_eq_true, if_true, decide_true, Bool.true_and]
+    by_cases h : i.durationNs / 1000000000 ≤ (i.lagSec : Int)
+    · simp [h] <;> omega
+    · simp [h] <;> omega
+
+/-- what the verification API answers on the envelope of a legal signing call -/
+def verifySpec (i : Input) : Bool :=
+  !expiredAtVerify i &&
+  (match i.kind with
+   | .oci => kvSubset (wantedMetadata i) (expectedPayload i).annotations
+   | .blob =>
+     (addUserMetadata [] (wantedMetadata i)).isSome &&
+     (statedMediaType i == "" || statedMediaType i == i.contentMediaType) &&
+     kvSubset (wantedMetadata i) (expectedPayload i).annotations)
+
+theorem kvSubset_nil (a : List KV) : kvSubset [] a = true := rfl
+
+/-- a verification call that asks for what was signed, before the expiry, succeeds -/
+theorem verifySpec_of_consistent (i : Input) (hl : legal i = true) (hc : consistentVerify i = true)
+    (he : expiredAtVerify i = false) : verifySpec i = true := by
+  simp only [legal, Bool.and_eq_true, decide_eq_true_eq] at hl
+  simp only [consistentVerify, Bool.and_eq_true, bne_iff_ne, ne_eq, Bool.or_eq_true, beq_iff_eq] at hc
+  obtain ⟨⟨_, _⟩, hk⟩ := hl
+  obtain ⟨hmd, hmt⟩ := hc
+  simp only [verifySpec, he, Bool.not_false, Bool.true_and]
+  cases hkind : i.kind with
+  | oci =>
+    simp only [hkind] at hk
+    simp only [expectedPayload, hkind]
+    cases hv : i.verifyMetadata with
+    | nothing => simp [wantedMetadata, hv, kvSubset_nil]
+    | all => simp [wantedMetadata, hv, kvSubset_merge _ _ hk]
+    | wrong => exact absurd hv hmd
+  | blob =>
+    simp only [hkind, Bool.and_eq_true, bne_iff_ne, ne_eq] at hk
+    obtain ⟨⟨_, _⟩, hlm⟩ := hk
+    have hmt' : i.verifyMediaType ≠ .other := by
+      rcases hmt with h | h
+      · rw [hkind] at h; cases h
+      · exact h
+    have hst : (statedMediaType i == "" || statedMediaType i == i.contentMediaType) = true := by
+      cases hv : i.verifyMediaType with
+      | same => simp [statedMediaType, hv]
+      | unstated => simp [statedMediaType, hv]
+      | other => exact absurd hv hmt'
+    simp only [expectedPayload, hkind, hst, Bool.and_true, Bool.true_and]
+    cases hv : i.verifyMetadata with
+    | nothing => simp [wantedMetadata, hv, kvSubset_nil, addUserMetadata]
+    | all => simp [wantedMetadata, hv, kvSubset_merge _ _ hlm, addUserMetadata_eq, hlm]
+    | wrong => exact absurd hv hmd
+
+/-- what is observed of a round trip, in closed form -/
+def obsSpec (i : Input) : Obs :=
+  if legal i then
+    { signed := true, verified := verifySpec i, payload := some (expectedPayload i),
+      expirySec := if i.durationNs ≠ 0 then some (i.durationNs / 1000000000) else none,
+      returned := if verifySpec i then
+          some (match i.kind with | .blob => expectedPayload i | .oci => fullObs i.desc) else none,
+      userMetadata := if verifySpec i then some (expectedPayload i).annotations else none }
+  else noSignature
+
+theorem userMetadataOf_eq (p : DescObs) : userMetadataOf p = p.annotations := by
+  simp [userMetadataOf, facts_returns.2]
+
+theorem runWith_eq (C : Crypto) (key : C.Key) (trust : C.Pub → Bool) (ht : trust (C.pub key) = true)
+    (nowNs : Int) (i : Input) : runWith C key trust nowNs i = obsSpec i := by
+  unfold runWith obsSpec
+  rw [signModel_eq]
+  by_cases hl : legal i = true
+  · simp only [hl, if_true]
+    have hexp : Option.map (fun x => x - (envelopeOf C key i (expectedAttrs i nowNs)).attrs.signingTime)
+        (envelopeOf C key i (expectedAttrs i nowNs)).attrs.expiry =
+        if i.durationNs ≠ 0 then some (i.durationNs / 1000000000) else none := by
+      simp only [envelopeOf, expectedAttrs]
+      by_cases hd : i.durationNs = 0
+      · simp [hd]
+      · simp [hd] <;> omega
+    have hps : processSignature trust
+        ((envelopeOf C key i (expectedAttrs i nowNs)).attrs.signingTime + (i.lagSec : Int))
+        (envelopeOf C key i (expectedAttrs i nowNs)) = !expiredAtVerify i := by
+      rw [processSignature_envelopeOf C key i _ trust _ rfl rfl ht]
+      exact notExpired_eq i nowNs
+    cases hk : i.kind with
+    | oci =>
+      have hv : verifyOCI trust ((envelopeOf C key i (expectedAttrs i nowNs)).attrs.signingTime + (i.lagSec : Int))
+          i.desc (wantedMetadata i) (envelopeOf C key i (expectedAttrs i nowNs)) = verifySpec i := by
+        simp only [verifyOCI, hps, verifySpec, hk]
+        simp [envelopeOf, expectedAttrs, expectedPayload, hk]
+      simp only [hv, hexp, userMetadataOf_eq]
+      simp [envelopeOf, expectedAttrs]
+    | blob =>
+      have hv : verifyBlob trust ((envelopeOf C key i (expectedAttrs i nowNs)).attrs.signingTime + (i.lagSec : Int))
+          i.blob (statedMediaType i) (wantedMetadata i) (envelopeOf C key i (expectedAttrs i nowNs)) =
+          if verifySpec i then some (expectedPayload i) else none := by
+        simp only [verifyBlob, hps, verifySpec, hk]
+        have ha : (envelopeOf C key i (expectedAttrs i nowNs)).attrs.alg = specAlg i.keySpec := rfl
+        have hp : (envelopeOf C key i (expectedAttrs i nowNs)).attrs.payload = expectedPayload i := rfl
+        simp only [ha, hp, verifierDigestAlg_eq, digestUnder_spec, facts_returns.1]
+        by_cases he : expiredAtVerify i = true
+        · simp [he]
+        · simp only [he, Bool.not_false, Bool.true_and, Bool.not_true, Bool.false_eq_true, if_false]
+          cases hm : addUserMetadata [] (wantedMetadata i) with
+          | none => simp
+          | some r =>
+            simp only [Option.isSome_some, Bool.true_and]
+            have hd : (expectedPayload i).digest = i.blob.specDigest i.keySpec := by simp [expectedPayload, hk]
+            have hs : (expectedPayload i).size = i.blob.size := by simp [expectedPayload, hk]
+            have hmt : (expectedPayload i).mediaType = i.contentMediaType := by simp [expectedPayload, hk]
+            simp only [hd, hs, hmt, bne_self_eq_false, Bool.false_or]
+            by_cases h1 : (statedMediaType i == "" || statedMediaType i == i.contentMediaType) = true
+            · have : (statedMediaType i != "" && statedMediaType i != i.contentMediaType) = false := by
+                simp only [Bool.or_eq_true, beq_iff_eq] at h1
+                rcases h1 with h | h <;> simp [h]
+              simp only [this, h1, Bool.true_and, Bool.false_eq_true, if_false]
+              by_cases h2 : kvSubset (wantedMetadata i) (expectedPayload i).annotations = true <;> simp [h2]
+            · have : (statedMediaType i != "" && statedMediaType i != i.contentMediaType) = true := by
+                simp only [Bool.or_eq_true, beq_iff_eq, not_or] at h1
+                simp [h1.1, h1.2]
+              simp [this, h1]
+      rw [hv]
+      by_cases hvs : verifySpec i = true
+      · simp only [hvs, if_true, hexp, userMetadataOf_eq]
+        simp [envelopeOf, expectedAttrs]
+      · simp only [hvs, Bool.false_eq_true, if_false, hexp]
+        simp [envelopeOf, expectedAttrs]
+  · simp [hl]
+
+
+/-! ### property theorems -/
+
+theorem run_eq (i : Input) : run i = obsSpec i := by
+  unfold run
+  apply runWith_eq
+  simp [toyTrust, toy]
+
+/-- **C07, the whole property**: every clause of `Holds` is true of the model's behaviour, for
+every input (no well-formedness hypothesis). -/
+theorem model_holds (i : Input) : Holds i (run i) = true := by
+  rw [run_eq]
+  unfold Holds clauses obsSpec
+  simp only [Clauses.holds_cons, Clauses.holds_nil, Bool.and_true]
+  by_cases hl : legal i = true
+  · simp only [hl, if_true]
+    by_cases hv : verifySpec i = true
+    · cases hk : i.kind <;> simp [hv, hk, expectedPayload]
+    · have hne : ¬ (consistentVerify i = true ∧ expiredAtVerify i = false) := by
+        intro h
+        exact hv (verifySpec_of_consistent i hl h.1 h.2)
+      have hv' : verifySpec i = false := by simpa using hv
+      have hc : (consistentVerify i && !expiredAtVerify i) = false := by
+        cases h1 : consistentVerify i <;> cases h2 : expiredAtVerify i <;> simp_all
+      cases hk : i.kind <;> simp [hv', hk, expectedPayload, hc]
+  · have hl' : legal i = false := by simpa using hl
+    simp [hl', noSignature]
+
+/-- **What the library signs, it verifies**: for every crypto scheme, key, key spec, format,
+signer kind, descriptor or blob, legal user metadata, legal duration, signing agent and clock,
+the signature the signing API produces is accepted by the verification API under a policy
+that trusts the signer, when the caller asks for what was signed before the expiry. -/
+theorem sign_then_verify_ok (C : Crypto) (key : C.Key) (trust : C.Pub → Bool)
+    (ht : trust (C.pub key) = true) (nowNs : Int) (i : Input)
+    (hl : legal i = true) (hc : consistentVerify i = true) (he : expiredAtVerify i = false) :
+    (runWith C key trust nowNs i).signed = true ∧ (runWith C key trust nowNs i).verified = true := by
+  rw [runWith_eq C key trust ht]
+  simp [obsSpec, hl, verifySpec_of_consistent i hl hc he]
+
+/-- the same at the level of the two APIs: the envelope exists and the verifier accepts it -/
+theorem sign_then_verify_ok_api (C : Crypto) (key : C.Key) (trust : C.Pub → Bool)
+    (ht : trust (C.pub key) = true) (nowNs : Int) (i : Input)
+    (hl : legal i = true) (hc : consistentVerify i = true) (he : expiredAtVerify i = false) :
+    ∃ e, signModel C key i nowNs = some e ∧
+      (i.kind = .oci → verifyOCI trust (e.attrs.signingTime + (i.lagSec : Int)) i.desc (wantedMetadata i) e = true) ∧
+      (i.kind = .blob → verifyBlob trust (e.attrs.signingTime + (i.lagSec : Int)) i.blob (statedMediaType i)
+          (wantedMetadata i) e = some (expectedPayload i)) := by
+  have h := runWith_eq C key trust ht nowNs i
+  have hv := verifySpec_of_consistent i hl hc he
+  refine ⟨envelopeOf C key i (expectedAttrs i nowNs), by simp [signModel_eq, hl], ?_, ?_⟩
+  · intro hk
+    simp only [runWith, signModel_eq, hl, if_true, hk, obsSpec, hv] at h
+    have := congrArg Obs.verified h
+    simpa using this
+  · intro hk
+    simp only [runWith, signModel_eq, hl, if_true, hk, obsSpec, hv] at h
+    split at h
+    · rename_i r hr
+      rw [hr]
+      have := congrArg Obs.returned h
+      simpa using this
+    · have := congrArg Obs.verified h
+      simp at this
+
+/-- illegal arguments are refused: the signing API produces nothing -/
+theorem illegal_is_refused (C : Crypto) (key : C.Key) (nowNs : Int) (i : Input) (hl : legal i = false) :
+    signModel C key i nowNs = none := by
+  simp [signModel_eq, hl]
+
+/-- **The signed payload is the sanitised descriptor**: media type, digest, size and the
+annotations with the user metadata merged in - nothing else (no urls, platform, data, artifact
+type), for descriptors with any extra fields. -/
+theorem payload_is_sanitised_desc (C : Crypto) (key : C.Key) (nowNs : Int) (i : Input) (e : Envelope C)
+    (h : signModel C key i nowNs = some e) :
+    e.attrs.payload = expectedPayload i ∧ e.attrs.payload.extraKeys = [] ∧
+    (i.kind = .oci → e.attrs.payload.mediaType = i.desc.mediaType ∧ e.attrs.payload.digest = i.desc.digest ∧
+        e.attrs.payload.size = i.desc.size ∧
+        ∀ k, kvLookup k e.attrs.payload.annotations =
+          (kvLookup k i.metadata).orElse (fun _ => kvLookup k i.desc.annotations)) := by
+  rw [signModel_eq] at h
+  by_cases hl : legal i = true
+  · simp only [hl, if_true, Option.some.injEq] at h
+    subst h
+    refine ⟨rfl, ?_, ?_⟩
+    · simp only [envelopeOf, expectedAttrs, expectedPayload]; cases i.kind <;> rfl
+    · intro hk
+      simp only [envelopeOf, expectedAttrs, expectedPayload, hk, true_and]
+      intro k
+      apply kvLookup_merge
+      have hl' := hl
+      simp only [legal, hk, Bool.and_eq_true] at hl'
+      exact hl'.2
+  · simp [hl] at h
+
+/-- **Expiry is exact**: the protected signing time is the clock truncated to seconds and the
+protected expiry is that signing time plus the requested duration - `none` for a zero
+duration -, whatever the sub-second part of the clock, and whether the library or an envelope
+plugin computes it. It rests on the guard of `validateSignArguments` (whole seconds). -/
+theorem expiry_exact (C : Crypto) (key : C.Key) (nowNs : Int) (i : Input) (e : Envelope C)
+    (h : signModel C key i nowNs = some e) :
+    i.durationNs % 1000000000 = 0 ∧ 0 ≤ i.durationNs ∧
+    e.attrs.signingTime = nowNs / 1000000000 ∧
+    e.attrs.expiry = if i.durationNs = 0 then none else some (e.attrs.signingTime + i.durationNs / 1000000000) := by
+  rw [signModel_eq] at h
+  by_cases hl : legal i = true
+  · simp only [hl, if_true, Option.some.injEq] at h
+    subst h
+    simp only [legal, Bool.and_eq_true, decide_eq_true_eq] at hl
+    refine ⟨hl.1.2, hl.1.1, rfl, ?_⟩
+    simp only [envelopeOf, expectedAttrs]
+    by_cases hd : i.durationNs = 0 <;> simp [hd]
+  · simp [hl] at h
+
+/-- the guard is needed: with 1500 ms the truncated expiry would depend on the clock's
+sub-second part (1 s after a signing time of xx.4, 2 s after xx.6) -/
+theorem expiry_without_guard_depends_on_clock (p : DescObs) :
+    (protectedAttrs "ES256" p false 1500000000 400000000).expiry = some 1 ∧
+    (protectedAttrs "ES256" p false 1500000000 600000000).expiry = some 2 ∧
+    signArgsOk 1500000000 = false := by
+  refine ⟨by simp [protectedAttrs], by simp [protectedAttrs], by decide⟩
+
+/-- the observation does not depend on the signing clock at all -/
+theorem clock_independent (C : Crypto) (key : C.Key) (trust : C.Pub → Bool) (ht : trust (C.pub key) = true)
+    (n₁ n₂ : Int) (i : Input) : runWith C key trust n₁ i = runWith C key trust n₂ i := by
+  rw [runWith_eq C key trust ht, runWith_eq C key trust ht]
+
+/-- **The blob digest uses the hash bound to the key, on both sides** (regenerated tables):
+for all six key specs and all four signers, the digest algorithm the signer derives from the
+key spec is the one the verifier derives from the envelope's signature algorithm, and it is
+the one the Notary specification binds to the key. -/
+theorem blob_hash_consistent (k : KeySpec) (s : SignerKind) :
+    (signerKeySpec s k).bind signerDigestAlg = some (specDigestAlg k) ∧
+    (headerAlg s k k.core).bind verifierDigestAlg = some (specDigestAlg k) := by
+  rw [signerKeySpec_eq, headerAlg_eq]
+  exact ⟨signerDigestAlg_eq k, verifierDigestAlg_eq k⟩
+
+/-- the raw-signature plugin is asked to hash with the hash the envelope is verified with -/
+theorem plugin_hash_consistent (k : KeySpec) (s : SignerKind) :
+    primitiveHash s k k.core = (headerAlg s k k.core).bind coreHash := by
+  rw [primitiveHash_eq, headerAlg_eq]
+  exact (coreHash_specAlg k).symm
+
+/-- **Successful blob verification returns the descriptor of the blob that was verified**:
+the content media type that was signed, the digest of the blob under the hash bound to the
+key, its size, and exactly the signed metadata. -/
+theorem blob_returns_verified_descriptor (C : Crypto) (key : C.Key) (trust : C.Pub → Bool)
+    (ht : trust (C.pub key) = true) (nowNs : Int) (i : Input) (hk : i.kind = .blob)
+    (hv : (runWith C key trust nowNs i).verified = true) :
+    (runWith C key trust nowNs i).returned = (runWith C key trust nowNs i).payload ∧
+    (runWith C key trust nowNs i).returned =
+      some { mediaType := i.contentMediaType, digest := i.blob.specDigest i.keySpec, size := i.blob.size,
+             annotations := mergeKV [] i.metadata, extraKeys := [] } := by
+  rw [runWith_eq C key trust ht] at hv ⊢
+  unfold obsSpec at hv ⊢
+  by_cases hl : legal i = true
+  · simp only [hl, if_true] at hv ⊢
+    simp [hv, hk, expectedPayload]
+  · simp [hl, noSignature] at hv
+
+/-- **The metadata read back is the metadata that was signed**: `UserMetadata()` of a
+successful outcome returns the payload's annotations. For a blob that is exactly the signed
+user metadata (as a map); for an OCI artifact it is the artifact's own annotations together
+with the user metadata (the two are disjoint - colliding keys are refused at signing). -/
+theorem metadata_read_back (C : Crypto) (key : C.Key) (trust : C.Pub → Bool)
+    (ht : trust (C.pub key) = true) (nowNs : Int) (i : Input)
+    (hv : (runWith C key trust nowNs i).verified = true) :
+    ∃ um, (runWith C key trust nowNs i).userMetadata = some um ∧
+      ∀ k, kvLookup k um =
+        match i.kind with
+        | .blob => kvLookup k i.metadata
+        | .oci => (kvLookup k i.metadata).orElse (fun _ => kvLookup k i.desc.annotations) := by
+  rw [runWith_eq C key trust ht] at hv ⊢
+  unfold obsSpec at hv ⊢
+  by_cases hl : legal i = true
+  · simp only [hl, if_true] at hv ⊢
+    refine ⟨(expectedPayload i).annotations, by simp [hv], ?_⟩
+    intro k
+    cases hk : i.kind with
+    | oci =>
+      simp only [expectedPayload, hk]
+      apply kvLookup_merge
+      have hl' := hl
+      simp only [legal, hk, Bool.and_eq_true] at hl'
+      exact hl'.2
+    | blob =>
+      have hlm : legalMetadata [] i.metadata = true := by
+        simp only [legal, hk, Bool.and_eq_true] at hl
+        exact hl.2.2
+      simp only [expectedPayload, hk, kvLookup_merge k [] i.metadata hlm]
+      cases kvLookup k i.metadata <;> simp [kvLookup]
+  · simp [hl, noSignature] at hv
+
+/-! ### codec round trips (regenerated tables of plugin/proto/algorithm.go) -/
+
+/-- every key spec survives the plugin wire encoding, which is the name the specification gives it -/
+theorem decodeKeySpec_encodeKeySpec (k : KeySpec) :
+    c07ProtoEncodeKeySpec.lookup k.core = some k.protoName ∧
+    c07ProtoDecodeKeySpec.lookup k.protoName = some k.core := by
+  cases k <;> decide
+
+/-- whatever name `DecodeKeySpec` accepts (any string at all), `EncodeKeySpec` gives it back -/
+theorem encodeKeySpec_decodeKeySpec (name : String) (ks : String × Nat)
+    (h : c07ProtoDecodeKeySpec.lookup name = some ks) : c07ProtoEncodeKeySpec.lookup ks = some name := by
+  simp only [c07ProtoDecodeKeySpec, List.lookup] at h
+  repeat' split at h
+  all_goals first
+    | (cases h; rename_i hb; simp at hb; subst hb; decide)
+    | cases h
+
+/-- whatever key spec `EncodeKeySpec` accepts, `DecodeKeySpec` gives it back -/
+theorem decodeKeySpec_encodeKeySpec_any (ks : String × Nat) (name : String)
+    (h : c07ProtoEncodeKeySpec.lookup ks = some name) : c07ProtoDecodeKeySpec.lookup name = some ks := by
+  simp only [c07ProtoEncodeKeySpec, List.lookup] at h
+  repeat' split at h
+  all_goals first
+    | (cases h; rename_i hb; simp at hb; subst hb; decide)
+    | cases h
+
+theorem decodeSigAlg_encodeSigAlg (alg name : String)
+    (h : c07ProtoEncodeSigAlg.lookup alg = some name) : c07ProtoDecodeSigAlg.lookup name = some alg := by
+  simp only [c07ProtoEncodeSigAlg, List.lookup] at h
+  repeat' split at h
+  all_goals first
+    | (cases h; rename_i hb; simp at hb; subst hb; decide)
+    | cases h
+
+theorem encodeSigAlg_decodeSigAlg (name alg : String)
+    (h : c07ProtoDecodeSigAlg.lookup name = some alg) : c07ProtoEncodeSigAlg.lookup alg = some name := by
+  simp only [c07ProtoDecodeSigAlg, List.lookup] at h
+  repeat' split at h
+  all_goals first
+    | (cases h; rename_i hb; simp at hb; subst hb; decide)
+    | cases h
+
+/-- every algorithm a supported key signs with has a wire name -/
+theorem sigAlg_encodable (k : KeySpec) : (c07ProtoEncodeSigAlg.lookup (specAlg k)).isSome = true := by
+  cases k <;> decide
+
+/-! ### non-vacuity -/
+
+/-- the toy scheme is a scheme in which forgery fails: another key's signature is rejected -/
+example (m : ToSign) :
+    toy.verify (toy.pub (toyKey .rsa2048)) m (toy.sign (toyKey .rsa3072) m) = false := by
+  simp [toy, toyKey]
+
+def exampleBlob : Input :=
+  { kind := .blob, keySpec := .ec384, format := .cose, signer := .pluginSignature,
+    desc := { mediaType := "", digest := "", size := 0, annotations := [], urls := [], platform := false,
+              data := "", artifactType := "" },
+    blob := { size := 3, sha256 := "sha256:aa", sha384 := "sha384:bb", sha512 := "sha512:cc" },
+    contentMediaType := "text/plain", mediaTypeValid := true,
+    metadata := [⟨"commit", "1"⟩, ⟨"buildId", "7"⟩], durationNs := 2000000000, nowFracNs := 999999999,
+    agent := "", verifyMediaType := .same, verifyMetadata := .all, lagSec := 1, exactIdentity := false, byTag := false }
+
+/-- a concrete successful round trip (legal, verified, SHA-384 digest for an EC-384 key, 2 s expiry) -/
+example : obsSpec exampleBlob =
+    { signed := true, verified := true,
+      payload := some { mediaType := "text/plain", digest := "sha384:bb", size := 3,
+                        annotations := [⟨"buildId", "7"⟩, ⟨"commit", "1"⟩], extraKeys := [] },
+      expirySec := some 2,
+      returned := some { mediaType := "text/plain", digest := "sha384:bb", size := 3,
+                         annotations := [⟨"buildId", "7"⟩, ⟨"commit", "1"⟩], extraKeys := [] },
+      userMetadata := some [⟨"buildId", "7"⟩, ⟨"commit", "1"⟩] } := by decide
+
+/-- a reserved key, and a duration that is not a whole number of seconds, are refused -/
+example : obsSpec { exampleBlob with metadata := [⟨"io.cncf.notary.x", "1"⟩] } = noSignature := by decide
+example : obsSpec { exampleBlob with durationNs := 1500000000 } = noSignature := by decide
+
+/-- verification after the expiry fails -/
+example : (obsSpec { exampleBlob with lagSec := 2 }).verified = false := by decide
+
+/-- `Holds` is false of wrong observations: a zero returned descriptor (the defect repaired by
+d14a4b1), a digest under the wrong hash, lost metadata -/
+example : Holds exampleBlob { (obsSpec exampleBlob) with returned := some zeroDesc } = false := by decide
+example : Holds exampleBlob { (obsSpec exampleBlob) with
+    payload := some { mediaType := "text/plain", digest := "sha256:aa", size := 3,
+                      annotations := [⟨"buildId", "7"⟩, ⟨"commit", "1"⟩], extraKeys := [] } } = false := by decide
+example : Holds exampleBlob { (obsSpec exampleBlob) with userMetadata := some [] } = false := by decide
+example : Holds exampleBlob { (obsSpec exampleBlob) with verified := false, returned := none, userMetadata := none } = false := by
+  decide
 
 end NotationModel.C07
